@@ -26,8 +26,17 @@ Cut rule: every cut bond gets its own label; the two ends carry `$L`/`$L` or `>L
 written as the bond symbol in front of a descriptor that follows its atom (`C=[$a]`) and behind a
 descriptor that precedes the first atom of the fragment (`[$a]=C`) - read_fragments.strip_bonding_descriptors
 and docs/source/syntax/fragments.rst.  A descriptor is written directly behind its atom, before or behind
-the atom's ring-closure digits, or (first atom only) in front of the fragment.  It is never written behind
-a branch of its atom: the docs say a connector *follows the atom*.
+the atom's ring-closure digits, or (first atom only) in front of the fragment.  Rendering mode pos='tail' (added for
+C01, used by no other property module) writes the descriptors of an atom behind the atom's branches instead: every
+neighbour of that atom is then written as a branch, `C(O)(C(F)Cl)[$a]`, so that the descriptor follows a `)` - and,
+when the branch itself contains a branch, a `)` that closes a nested branch.  strip_bonding_descriptors attaches a
+descriptor that follows `)` to the atom the branch started from (the SMILES rule for whatever follows a branch).
+
+`NH_AROMATICS` (C01 only) are molecules whose usual spelling contains an aromatic `[nH]` (pyrrole, imidazole, indole,
+2,2'-bipyrrole, 2-pyridone).  Each is typed in twice with the same atom order: the aromatic spelling that is *written*
+into the fragments, and the Kekule structure with the N-H localised that the molecule *is* (five-membered rings have
+exactly one such structure; a six-membered carbocycle of alternating bonds fused to it is declared aromatic as
+everywhere else in G2).  Atoms that are written lower case but are localised in the molecule carry aromatic flag 2.
 """
 import itertools
 import random
@@ -135,6 +144,41 @@ def library():
     if _LIB is None:
         _LIB = [(s, parse_smiles(s)) for s in LIBRARY_SMILES]
     return _LIB
+
+
+# (aromatic spelling, localised structure) - same atom order in both, see module docstring
+NH_AROMATIC_SMILES = [
+    ('[nH]1cccc1', 'N1C=CC=C1'),                               # pyrrole
+    ('Cc1ccc[nH]1', 'CC1=CC=CN1'),                             # 2-methylpyrrole
+    ('c1c[nH]cn1', 'C1=CNC=N1'),                               # imidazole
+    ('CCc1c[nH]cn1', 'CCC1=CNC=N1'),                           # 4-ethylimidazole (histidine side chain)
+    ('CCc1c[nH]c2ccccc12', 'CCC1=CNc2ccccc12'),                # 3-ethylindole (tryptophan side chain)
+    ('[nH]1cccc1-c1ccc[nH]1', 'N1C=CC=C1C1=CC=CN1'),           # 2,2'-bipyrrole
+    ('O=c1[nH]cccc1C', 'O=C1NC=CC=C1C'),                       # 3-methyl-2-pyridone
+    ('OC(=O)C(N)Cc1c[nH]cn1', 'OC(=O)C(N)CC1=CNC=N1'),         # histidine
+]
+_NHLIB = None
+
+
+def nh_aromatic(written, localised):
+    """G2 molecule of an [nH] aromatic: atoms and bond orders of the localised structure; an atom that is lower case in
+    the written spelling and upper case in the localised one gets aromatic flag 2 (written lower case, `[nH]` when it
+    carries hydrogen; bonds between two lower-case ring atoms are written without a symbol whatever their order)."""
+    w, k = parse_smiles(written), parse_smiles(localised)
+    assert [a[:2] for a in w['a']] == [a[:2] for a in k['a']], (written, localised)
+    assert sorted(tuple(sorted(b[:2])) for b in w['b']) == sorted(tuple(sorted(b[:2])) for b in k['b']), (written, localised)
+    atoms = []
+    for aw, ak in zip(w['a'], k['a']):
+        assert aw[2] or not ak[2]
+        atoms.append([ak[0], ak[1], 1 if ak[2] else (2 if aw[2] else 0)])
+    return {'a': atoms, 'b': [list(b) for b in k['b']]}
+
+
+def nh_library():
+    global _NHLIB
+    if _NHLIB is None:
+        _NHLIB = [(w, nh_aromatic(w, k)) for w, k in NH_AROMATIC_SMILES]
+    return _NHLIB
 
 
 def ladder(k, double_rungs=()):
@@ -406,6 +450,8 @@ def make_fragments(mol, part, shares=(), triangle=False, kind='$', lab='alpha'):
         L = new_label()
         kk = kind if kind in ('$', '>', '<') else ('$', '>', '<')[cut_no % 3]
         cut_no += 1
+        if o == 2 and mol['a'][u][2] and mol['a'][v][2]:
+            o = 1   # a localised double bond inside a ring that is written in lower case (flag 2): the cut is written plain
         if kk == '$':
             tu = tv = '$' + L
         elif kk == '>':
@@ -438,6 +484,8 @@ _BSYM = {1: '', 2: '=', 3: '#', 1.5: ''}
 def _atom_token(atom, nh, style):
     el, chg, arom = atom
     sym = el.lower() if arom else el
+    if arom == 2 and el != 'C' and nh:
+        return '[' + sym + ('H' if nh == 1 else 'H%d' % nh) + ']'     # pyrrole-type [nH]: the hydrogen is always written
     if chg == 0 and (style != 'bracket' or arom):
         return sym
     h = ''
@@ -468,7 +516,8 @@ def render_fragment(mol, frag, nh, start=0, nbr='asc', digit='reuse', rsym='open
     digit  'reuse' | 'fresh' | 'from5' | 'percent'               branch order and which ring bond becomes the closure)
     rsym   'open' | 'close' | 'both': where the symbol of a non-single ring-closure bond is written
     pos    'before' | 'after' | 'split' | 'lead': descriptors before / behind the ring digits, first before and rest
-           behind, or ('lead') in front of the fragment for the first atom and 'before' elsewhere
+           behind, or ('lead') in front of the fragment for the first atom and 'before' elsewhere; 'tail': behind the
+           atom's branches (all its neighbours are then written as branches), 'before' for atoms without neighbours
     atom   'plain' | 'bracket' (every non-aromatic atom as bracket atom with its H count) | 'bare' (charged atoms
            without H count)
     """
@@ -532,6 +581,18 @@ def render_fragment(mol, frag, nh, start=0, nbr='asc', digit='reuse', rsym='open
     def is_arom(a):
         return bool(mol['a'][frag['atoms'][a]][2])
 
+    # bonds between two lower-case atoms one of which is localised (flag 2): no symbol inside the ring, `-` outside
+    lower_ring = set()
+    if any(mol['a'][g][2] == 2 for g in frag['atoms']):
+        for k, (u, v, o) in enumerate(mol['b']):
+            if mol['a'][u][2] and mol['a'][v][2] and 2 in (mol['a'][u][2], mol['a'][v][2]) and is_ring_bond(mol, k):
+                lower_ring.add(frozenset((u, v)))
+
+    def bsym(a, b):
+        if frozenset((frag['atoms'][a], frag['atoms'][b])) in lower_ring:
+            return ''
+        return _bond_symbol(order[(a, b)], is_arom(a), is_arom(b))
+
     def write(a, lead_ok):
         g = frag['atoms'][a]
         tok = _atom_token(mol['a'][g], nh[g], atom)
@@ -549,26 +610,29 @@ def render_fragment(mol, frag, nh, start=0, nbr='asc', digit='reuse', rsym='open
         released = []
         for rid, other in closes[a]:
             d = assigned[rid]
-            s = _bond_symbol(order[(a, other)], is_arom(a), is_arom(other))
+            s = bsym(a, other)
             ring += (s if rsym in ('close', 'both') else '') + fmt(d)
             released.append(d)
         for rid, other in opens[a]:
             d = alloc()
             assigned[rid] = d
-            s = _bond_symbol(order[(a, other)], is_arom(a), is_arom(other))
+            s = bsym(a, other)
             ring += (s if rsym in ('open', 'both') else '') + fmt(d)
         if digit == 'reuse':
             for d in released:
                 free.append(d)
             free.sort()
+        kids = children[a]
+        tail = []
+        if pos == 'tail' and kids and descs:
+            tail, before = descs, []
         out = ''.join(_desc_text(d, True) for d in lead) + tok + ''.join(_desc_text(d) for d in before) + ring \
             + ''.join(_desc_text(d) for d in after)
-        kids = children[a]
         for i, c in enumerate(kids):
-            s = _bond_symbol(order[(a, c)], is_arom(a), is_arom(c))
+            s = bsym(a, c)
             sub = write(c, False)
-            out += ('(' + s + sub + ')') if i < len(kids) - 1 else (s + sub)
-        return out
+            out += ('(' + s + sub + ')') if (i < len(kids) - 1 or tail) else (s + sub)
+        return out + ''.join(_desc_text(d) for d in tail)
 
     return write(start, True)
 
@@ -784,6 +848,23 @@ def exhaustive_renderings(mol, part, sizes_cap=4):
                             yield {'starts': list(st), 'nbr': nb, 'digit': dg, 'rsym': rs, 'pos': ps, 'kind': kd}
 
 
+def tail_renderings(mol, part, cap=None):
+    """Renderings with the descriptors behind the branches of their atom (pos='tail'): every combination of start atoms
+    (the first `cap` combinations in lexicographic order when given - the start atom decides which neighbours are
+    branches and how deep they nest) x neighbour order asc / desc; descriptor kind and ring-digit mode cycle.  Only
+    renderings in which at least one descriptor really follows a `)` are of interest: the caller filters on the text."""
+    sizes = fragment_sizes(part)
+    starts = itertools.product(*[range(s) for s in sizes])
+    if cap:
+        starts = itertools.islice(starts, cap)
+    i = 0
+    for st in starts:
+        for nb in ('asc', 'desc'):
+            yield {'starts': list(st), 'nbr': nb, 'digit': ('reuse', 'percent')[i % 2], 'rsym': _RSYMS[i % 3], 'pos': 'tail',
+                   'kind': ('$', '>', '<')[i % 3]}
+            i += 1
+
+
 _DIGITS = ['reuse', 'fresh', 'from5', 'percent']
 _RSYMS = ['open', 'close', 'both']
 _POSS = ['before', 'after', 'lead', 'split']
@@ -805,5 +886,5 @@ def covering_renderings(mol, part, k, rng):
 
 
 def mol_key(mol):
-    return ';'.join('%s%+d%s' % (a[0], a[1], 'a' if a[2] else '') for a in mol['a']) + '|' + \
+    return ';'.join('%s%+d%s' % (a[0], a[1], ('a' if a[2] == 1 else 'p') if a[2] else '') for a in mol['a']) + '|' + \
         ';'.join('%d-%d:%s' % (u, v, o) for u, v, o in mol['b'])
